@@ -2077,6 +2077,13 @@ func init() {
 
 func init() {
 	oracleTable["C11"] = func(o *octx) {
+		if strings.HasSuffix(o.c.ID, "-0") || strings.HasSuffix(o.c.ID, "-1") {
+			if why, detail := recursiveStacks(); why != "" {
+				o.evals++
+				o.fail(why, "", detail)
+				return
+			}
+		}
 		if o.e == nil {
 			return
 		}
@@ -2294,6 +2301,11 @@ func init() {
 				return
 			}
 			if why, detail := errorfVerbForms(); why != "" {
+				o.evals++
+				o.fail(why, "", detail)
+				return
+			}
+			if why, detail := isMethodMultiShapes(); why != "" {
 				o.evals++
 				o.fail(why, "", detail)
 				return
@@ -3201,6 +3213,65 @@ func errorfVerbForms() (string, string) {
 		}
 		if (goerr.Unwrap(std) != nil) != (errors.UnwrapAll(lib) != lib) {
 			return "errors.Errorf(" + c.f + ") has a cause exactly when fmt.Errorf has one: violated", ""
+		}
+	}
+	return "", ""
+}
+
+// recursiveStacks: a stack captured under direct recursion holds the same program counter several times in a row;
+// every stack-bearing layer reports the same frames (count, functions, lines) before and after 1..3 hops.
+func recursiveStacks() (string, string) {
+	frames := func(e error) string {
+		var b strings.Builder
+		for c := e; c != nil; c = errors.UnwrapOnce(c) {
+			if st := withstack.GetReportableStackTrace(c); st != nil {
+				fmt.Fprintf(&b, "[%d:", len(st.Frames))
+				for _, f := range st.Frames {
+					fmt.Fprintf(&b, " %s:%d", f.Function, f.Lineno)
+				}
+				b.WriteString("]")
+			}
+		}
+		return b.String()
+	}
+	for _, depth := range []int{2, 6, 12} {
+		e := errors.Wrap(c16Recurse(depth, c16Origin), "ctx")
+		want := frames(e)
+		cur := e
+		for hop := 1; hop <= 3; hop++ {
+			cur = transferOnce(cur, nil)
+			if got := frames(cur); got != want {
+				return fmt.Sprintf("the reportable frames of an error made %d levels deep in a recursive function differ after hop %d", depth, hop), firstDiff(want, got)
+			}
+		}
+	}
+	return "", ""
+}
+
+// isMethodMulti: a multi-cause type of the application that also has an Is method (answering no): the standard
+// library still looks at its branches, and so does the library.
+type isMethodMulti struct{ errs []error }
+
+func (m *isMethodMulti) Error() string   { return "multi with an Is method" }
+func (m *isMethodMulti) Unwrap() []error { return m.errs }
+func (m *isMethodMulti) Is(error) bool   { return false }
+
+func isMethodMultiShapes() (string, string) {
+	sentinel := goerr.New("sentinel in a branch")
+	libSentinel := errors.New("library sentinel in a branch")
+	for name, e := range map[string]error{
+		"bare":           &isMethodMulti{errs: []error{goerr.New("other"), sentinel, libSentinel}},
+		"under Wrap":     errors.Wrap(&isMethodMulti{errs: []error{sentinel, libSentinel}}, "ctx"),
+		"branch of Join": errors.Join(goerr.New("x"), &isMethodMulti{errs: []error{fmt.Errorf("w: %w", sentinel), errors.WithHint(libSentinel, "h")}}),
+		"nested":         &isMethodMulti{errs: []error{&isMethodMulti{errs: []error{sentinel, libSentinel}}}},
+	} {
+		for _, ref := range []error{sentinel, libSentinel} {
+			if goerr.Is(e, ref) && !errors.Is(e, ref) {
+				return "the standard errors.Is finds a reference inside a multi-cause error that has an Is method of its own, the library's Is does not (" + name + ")", fmt.Sprintf("%q", ref)
+			}
+			if goerr.Is(e, ref) && !errors.IsAny(e, goerr.New("none"), ref) {
+				return "IsAny misses a reference inside a multi-cause error that has an Is method of its own (" + name + ")", fmt.Sprintf("%q", ref)
+			}
 		}
 	}
 	return "", ""
